@@ -500,9 +500,10 @@ def write_blocks_to_disk(blocks: List[bytes], datadir: str):
             new_blk_no = (
                 int(os.path.split(filepath)[-1].split(".dat")[0].split("blk")[-1]) + 1
             )
-            filename = f"blk{new_blk_no.zfill(5)}.dat"
+            filename = f"blk{str(new_blk_no).zfill(5)}.dat"
             filepath = os.path.join(datadir, filename)
             dat_file = open(filepath, "ab")
+            dat_file.write(blk_data)
     dat_file.close()
 
 
